@@ -51,7 +51,9 @@ def gen(rng):
     # frames in a wide dtype on a large pedestal (more than 24 bits of mantissa needed), and pattern objects built with another radius
     base, dt = [(0, 'float32'), (0, 'float32'), (3e8, 'float64'), (2 ** 26, 'int64'), (2 ** 40, 'float64')][int(rng.integers(0, 5))]
     built = None if rng.random() < 0.7 else float(radius + rng.choice([2.0, 4.0]))   # larger: a default radial map built for it covers the new radius
-    return dict(shape=(fy, fx), kind=kind, radius=radius, pos=pos, bright=bright.tolist(), history=[list(h) for h in history], base=base, dtype=dt, built_radius=built)
+    # the absolute intensity scale is arbitrary (normalised data, physical units): the brightest disks are the same whatever the unit
+    scale = float(rng.choice([1e-12, 1e-6, 1e6, 1e12])) if (dt == 'float32' and rng.random() < 0.3) else 1.0
+    return dict(shape=(fy, fx), kind=kind, radius=radius, pos=pos, bright=bright.tolist(), history=[list(h) for h in history], base=base, dtype=dt, built_radius=built, scale=scale)
 
 
 def render(c):
@@ -64,6 +66,8 @@ def render(c):
 
 def stmt_failure(c):
     f = render(c)
+    if c.get('scale', 1.0) != 1.0:
+        f = (f.astype(np.float64) * c['scale']).astype(np.float32)
     if c.get('dtype', 'float32') != 'float32':
         f = (np.rint(f.astype(np.float64) * 8) + c['base']).astype(c['dtype'])       # brightness steps of 12 on the pedestal
     if c.get('built_radius'):
